@@ -163,6 +163,47 @@ func runC11(c *Ctx) {
 		r.Undecided("R2", "role:cea-builders", c.fpos(h), "cannot find the success and error CEA builders in the CER handler")
 		return
 	}
+	// the writer may obtain the answer from an assembling function of the same package that it hands its own
+	// parameters: what the CEA contains is then decided there
+	asm := func(g *ssa.Function) *ssa.Function {
+		for _, ci := range flow.CallInstrs(g) {
+			if flow.IsCallTo(ci, pkgDiam, "Message", "Answer") {
+				return g
+			}
+		}
+		for _, ci := range flow.CallInstrs(g) {
+			h := flow.StaticCallee(ci)
+			if h == nil || h.Blocks == nil || pkgOf(h) != pkgOf(g) || h.Signature.Results().Len() < 1 || !isMsgPtr(h.Signature.Results().At(0).Type()) {
+				continue
+			}
+			through := true
+			for i, a := range ci.Common().Args {
+				pp, isP := flow.Peel(a).(*ssa.Parameter)
+				if !isP || pp.Parent() != g || paramIndex(g, pp) != i {
+					through = false
+				}
+			}
+			answers := false
+			for _, cj := range flow.CallInstrs(h) {
+				if flow.IsCallTo(cj, pkgDiam, "Message", "Answer") {
+					answers = true
+				}
+			}
+			if through && answers {
+				return h
+			}
+		}
+		return g
+	}
+	writerOf := map[*ssa.Function]*ssa.Function{}
+	if a := asm(okB); a != okB {
+		writerOf[a] = okB
+		okB = a
+	}
+	if a := asm(errB); a != errB {
+		writerOf[a] = errB
+		errB = a
+	}
 	r.Role("SuccessCEA", fname(okB))
 	r.Role("ErrorCEA", fname(errB))
 	_ = okCall
@@ -302,12 +343,44 @@ func runC11(c *Ctx) {
 			}
 		}
 		key := fname(b) + ":ids"
-		if ans == nil || write == nil {
+		// an assembler hands the finished CEA to its writer: the state that counts is the one it returns, and the
+		// writer has to send exactly that object
+		var at ssa.Instruction
+		var obj ssa.Value
+		connFn := b
+		if w := writerOf[b]; w != nil && write == nil && ans != nil {
+			var ret *ssa.Return
+			nret := 0
+			flow.Instrs(b, func(in ssa.Instruction) {
+				if rt, ok := in.(*ssa.Return); ok && len(rt.Results) >= 1 && !flow.IsNilConst(rt.Results[0]) && rt.Block() != b.Recover {
+					ret = rt
+					nret++
+				}
+			})
+			for _, ci := range flow.CallInstrs(w) {
+				if !isMessageWrite(ci) {
+					continue
+				}
+				mv := flow.Peel(ci.Common().Args[0])
+				if ex, isEx := mv.(*ssa.Extract); isEx && ex.Index == 0 {
+					mv = ex.Tuple
+				}
+				if mc, isCall := mv.(*ssa.Call); isCall && flow.StaticCallee(mc) == b {
+					write = ci
+				}
+			}
+			if nret == 1 && write != nil {
+				at, obj, connFn = ret, flow.Peel(ret.Results[0]), w
+			}
+		} else if write != nil {
+			at, obj = write, flow.Peel(write.Common().Args[0])
+		}
+		if ans == nil || write == nil || at == nil {
 			r.Fail("R3", key, c.fpos(b), "the builder does not build its CEA with Answer() and write it")
 			continue
 		}
 		se := c.newSymEval(b, c.Depth)
-		st, ok := se.objectState(flow.Peel(write.Common().Args[0]), write, c.Depth)
+		st, ok := se.objectState(obj, at, c.Depth)
 		req := se.eval(ans.Call.Args[0])
 		if !ok || req.Op != "param" {
 			r.Undecided("R3", key, c.pos(write), "cannot summarise the CEA written here")
@@ -316,7 +389,7 @@ func runC11(c *Ctx) {
 		c.checkMirrorRule("R3", st, req.Leaf, fname(b)+":cea", c.pos(write), false, false)
 		// written to the connection parameter
 		var connP *ssa.Parameter
-		for _, p := range b.Params {
+		for _, p := range connFn.Params {
 			if flow.TypeIs(p.Type(), pkgDiam, "Conn") {
 				connP = p
 			}
